@@ -31,6 +31,7 @@ func init() {
 		c06BuiltinTable(o)
 		c06CmpTonode(o)
 		c06Multipliers(o)
+		c06Unmarshal(o)
 		o.pins("internal/core/adt", "numOp", "intDivOp", "OpContext.Add", "OpContext.Sub", "OpContext.Mul",
 			"OpContext.Quo", "OpContext.IntDiv", "OpContext.IntMod", "OpContext.IntQuo", "OpContext.IntRem",
 			"BinOp", "cmpTonode", "OpContext.newNum", "UnaryExpr.evaluate", "Num.Cmp")
@@ -316,4 +317,24 @@ func c06Multipliers(o *out) {
 		}
 	}
 	fmt.Fprintf(o, "/-- the init function filling literal.mulToRat: constants, loop header, multiplications and stores -/\ndef mulToRatInit : List String := [%s]\n", c06Strs(append(append(news, loop), assigns...)))
+}
+
+// c06Unmarshal: the statement of NumInfo.decimal that reads the buffer with UnmarshalText —
+// whether its error is returned (commit 1674508) or dropped.
+func c06Unmarshal(o *out) {
+	p := loadPkg("cue/literal")
+	fd := p.findFunc("NumInfo.decimal")
+	found := ""
+	if fd != nil && fd.Body != nil {
+		for _, st := range fd.Body.List {
+			if src := p.src(st); strings.Contains(src, "UnmarshalText") {
+				found = src
+			}
+		}
+	}
+	if found == "" {
+		fmt.Fprintf(o, "def unmarshalStmt_unavailable : Unit := ()\n")
+		return
+	}
+	fmt.Fprintf(o, "/-- how NumInfo.decimal treats the error of UnmarshalText -/\ndef unmarshalStmt : String := %s\n", leanStr(found))
 }
